@@ -61,7 +61,8 @@ SortsTotal == { <<KField(1, D, MF, "first"), KId(A)>>, <<KScore(D), KId(D)>> }
 SortsQuick    == SortsScore \cup SortsKey4 \cup {<<KField(1, A, ML, "min")>>, <<KField(1, D, MF, "max")>>}
                   \cup SortsTwo \cup SortsId \cup SortsTotal
 SortsThorough == SortsScore \cup SortsKey4 \cup {<<KField(1, D, ML, "min")>>, <<KField(1, A, MF, "max")>>}
-                  \cup {<<KField(1, A, ML, "first"), KScore(D)>>} \cup SortsId \cup SortsTotal
+                  \cup {<<KField(1, A, ML, "first"), KScore(D)>>} \cup SortsId
+                  \cup {<<KField(1, D, MF, "first"), KId(A)>>}
 SortsHeap     == { <<KScore(D)>>, <<KField(1, D, MF, "first")>>, <<KField(1, A, ML, "first"), KScore(D)>>, <<KId(A)>> }
 SortsSim      == SortsQuick \cup SortsThorough
                   \cup { <<KField(1, A, MF, "first"), KField(2, D, ML, "first"), KId(A)>>,
